@@ -20,9 +20,12 @@ mod evid;
 mod gen;
 mod m_rules;
 mod m_search;
+mod m_uci;
 mod m_undo;
 mod par;
 mod rng;
+mod sess;
+mod uci;
 
 use serde_json::Value;
 
@@ -33,20 +36,57 @@ fn usage() -> ! {
 
 const WALK: &[&str] = &["C01", "C02", "C04", "C05", "C11", "C16"];
 
+/// Run a second group of workers (UCI-level part of a property) and fold it into the first.
+fn with_part(mut chk: evid::Check, mut agg: par::Agg, mode: &str, tier: &str, seed: u64, needs: &[(&str, &str, u64)]) -> i32 {
+    let nshards = 16usize.max(par::ncores());
+    let wd = std::time::Duration::from_secs(if tier == "thorough" { 10800 } else { 1500 });
+    let a2 = par::run_workers(mode, tier, seed, nshards, &[], wd, None, &[]);
+    let dir2 = a2.workdir.clone();
+    agg.merge(a2);
+    let _ = std::fs::remove_dir_all(dir2);
+    for (label, ctr, min) in needs {
+        chk.need(label, agg.c(ctr), *min);
+    }
+    evid::finalize(chk, &agg)
+}
+
 fn run(prop: &str, tier: &str, seed: u64) -> i32 {
     match prop {
         p if WALK.contains(&p) => m_rules::run(p, tier, seed),
-        "C12" | "C20" => m_rules::run(prop, tier, seed),
+        "C12" => {
+            let (mut chk, agg) = m_rules::run_parts(prop, tier, seed);
+            chk.rule.push_str(" || Command level: the real binary is fed `position fen F moves <prefix> s; show; isready` for every one of the 28672 move-shaped strings s (64x64 square pairs x {none,q,r,b,n,k,p}) on crafted and generated positions with en-passant (incl. a second mover pawn on the same file pair), castling rights (incl. displaced king) and promotions, and for legal texts plus near misses on further positions; the displayed state decides.");
+            with_part(chk, agg, "C12cmd", tier, seed, &[("command-level strings tried", "strings_tried", 50000), ("command-level legal strings", "legal_strings", 500),
+                ("positions with every move-shaped string", "positions_with_every_move_shaped_string", 16), ("command-level positions with en passant", "positions_with_en_passant", 5)])
+        }
+        "C20" => {
+            let (mut chk, agg) = m_rules::run_parts(prop, tier, seed);
+            chk.rule.push_str(" || Binary level: `position fen F moves ...; show` for generated games, output parsed the same way.");
+            with_part(chk, agg, "C20show", tier, seed, &[("shows checked through the binary", "shows_checked", 200)])
+        }
         "C03" => m_undo::run(tier, seed),
-        "C06" | "C18" => m_search::run_hist(prop, tier, seed),
+        "C06" | "C18" => {
+            let (mut chk, agg) = m_search::run_hist(prop, tier, seed);
+            chk.rule.push_str(" || UCI level: game-like histories of `position` + `go depth d` on one engine process (shared table); bestmove / info pv lines judged the same way.");
+            let mode = format!("{prop}uci");
+            with_part(chk, agg, &mode, tier, seed, &[("UCI-level go commands judged", "uci_gos_judged", 200)])
+        }
         "C07" => {
-            let (chk, agg) = m_search::run_c07(tier, seed);
-            evid::finalize(chk, &agg)
+            let (mut chk, agg) = m_search::run_c07(tier, seed);
+            chk.rule.push_str(" || UCI level: `go infinite`/`go depth 6` followed at once by `stop` with the search-thread start delayed (so the stop precedes the first poll) and `go movetime 0..5`: the bestmove must be a legal move, never `none`.");
+            with_part(chk, agg, "C07uci", tier, seed, &[("UCI-level go commands judged", "uci_gos_judged", 200)])
         }
         "C08" => m_search::run_c08(tier, seed),
         "C09" => m_search::run_c09(tier, seed),
         "C10" => {
-            let (chk, agg) = m_search::run_c10(tier, seed);
+            let (mut chk, agg) = m_search::run_c10(tier, seed);
+            chk.rule.push_str(" || UCI level: dead and mate-in-one roots through `go depth 3..5`: `bestmove none` exactly on dead roots.");
+            with_part(chk, agg, "C10uci", tier, seed, &[("UCI-level go commands judged", "uci_gos_judged", 200), ("UCI `bestmove none` on dead roots", "uci_bestmove_none_on_dead_root", 5)])
+        }
+        "C13" => m_uci::run_c13(tier, seed),
+        "C14" => m_uci::run_c14(tier, seed),
+        "C19" => {
+            let (chk, agg) = m_uci::run_c19(tier, seed);
             evid::finalize(chk, &agg)
         }
         _ => {
@@ -65,19 +105,31 @@ fn worker(mode: &str, shard: usize, nshards: usize, seed: u64, tier: &str, out: 
         "C08" => m_search::worker_c08(shard, nshards, seed, tier, out),
         "C09" => m_search::worker_c09(shard, nshards, seed, tier, out),
         "C10" => m_search::worker_c10(shard, nshards, seed, tier, out),
+        "C06uci" | "C07uci" | "C10uci" | "C18uci" => m_uci::worker_ucisample(&mode[..3], shard, nshards, seed, tier, out),
+        "C12cmd" => m_uci::worker_c12cmd(shard, nshards, seed, tier, out),
+        "C20show" => m_uci::worker_c20show(shard, nshards, seed, tier, out),
+        "C13" => m_uci::worker_c13(shard, nshards, seed, tier, out),
+        "C14" => m_uci::worker_c14(shard, nshards, seed, tier, out),
+        "C19" => m_uci::worker_c19(shard, nshards, seed, tier, out),
         _ => usage(),
     }
 }
 
 fn replay(prop: &str, case: &Value, out: &mut par::Out) {
-    match prop {
-        p if WALK.contains(&p) || p == "C12" || p == "C20" => m_rules::replay(p, case, out),
-        "C03" => m_undo::replay(case, out),
-        "C06" | "C18" => m_search::replay_hist(prop, case, out),
-        "C07" => m_search::replay_c07(case, out),
-        "C08" => m_search::replay_c08(case, out),
-        "C09" => m_search::replay_c09(case, out),
-        "C10" => m_search::replay_c10(case, out),
+    let kind = case["kind"].as_str().unwrap_or("");
+    match (prop, kind) {
+        ("C12", "position-moves") => m_uci::replay_c12cmd(case, out),
+        ("C14", _) => m_uci::replay_session(prop, case, out),
+        ("C13", _) => m_uci::replay_c13(case, out),
+        ("C19", _) => m_uci::replay_c19(case, out),
+        ("C06" | "C07" | "C10" | "C18", "session") => m_uci::replay_ucisample(prop, case, out),
+        (p, _) if WALK.contains(&p) || p == "C12" || p == "C20" => m_rules::replay(p, case, out),
+        ("C03", _) => m_undo::replay(case, out),
+        ("C06" | "C18", _) => m_search::replay_hist(prop, case, out),
+        ("C07", _) => m_search::replay_c07(case, out),
+        ("C08", _) => m_search::replay_c08(case, out),
+        ("C09", _) => m_search::replay_c09(case, out),
+        ("C10", _) => m_search::replay_c10(case, out),
         _ => println!("no replay routine for {prop}"),
     }
 }
